@@ -36,7 +36,8 @@ VARIABLES cfg,   \* [role, pmce, limit, hmode, herrAt, policy]
 S0 == [pos |-> 1, frag |-> FALSE, rd |-> "none", start |-> 0, cur |-> 0,
        used |-> 0, got |-> 0, mlen |-> 0, mhuge |-> FALSE,
        failed |-> FALSE, nrid |-> -1, wild |-> FALSE, hn |-> 0,
-       zgot |-> 0, zobs |-> 0]   \* compressed message: plaintext bytes delivered / side effects already reported
+       zgot |-> 0, zobs |-> 0,
+       nerr |-> 0]               \* NextReader calls that returned an error (the documented panic comes with the 1000th)   \* compressed message: plaintext bytes delivered / side effects already reported
 
 Min(a, b) == IF a < b THEN a ELSE b
 Rng(q) == {q[i] : i \in DOMAIN q}
@@ -266,9 +267,13 @@ NRAllowed(st, w, ok, type, e, obs) ==
           ELSE ~ok /\ ErrFits(w, e)
 
 NRNext(st, w, e) ==
-  IF st.failed THEN [st EXCEPT !.nrid = IF st.nrid < 0 THEN e.id ELSE st.nrid, !.rd = "none"]
+  IF st.failed THEN [st EXCEPT !.nrid = IF st.nrid < 0 THEN e.id ELSE st.nrid, !.rd = "none", !.nerr = st.nerr + 1]
   ELSE IF w.res \in {"data", "wild"} THEN w.s
-  ELSE [w.s EXCEPT !.failed = TRUE, !.nrid = e.id, !.rd = "none"]
+  ELSE [w.s EXCEPT !.failed = TRUE, !.nrid = e.id, !.rd = "none", !.nerr = st.nerr + 1]
+
+(* C05/C07: the only panic the library may raise on untrusted input: the 1000th NextReader call *)
+(* on a connection that has already failed.                                                    *)
+PanicAllowed(st) == st.failed /\ st.nerr >= 999
 
 (* Read reported (n, err, obs) for a request of k bytes. *)
 RDAllowed(st, w, k, n, e, obs) ==
